@@ -722,6 +722,13 @@ module Ed = struct
                Hashtbl.replace rinfo !nr (m, t); Hashtbl.replace ralive !nr true;
                Printf.printf "R r%d\n" !nr; incr nr end
              else print_endline "R"
+         | "resub", [r; m] -> let r = int_of_string r and m = int_of_string m in
+             (match Hashtbl.find_opt rinfo r with
+              | Some (_, t) when (try Hashtbl.find ralive r with Not_found -> false) && (try Hashtbl.find alive m with Not_found -> false) ->
+                  ignore (do_op (ESub (nat_of_int m, nat_of_int t, nat_of_int r)));
+                  Hashtbl.replace rinfo r (m, t)
+              | _ -> ());
+             print_endline "R"
          | ("unsub" | "delrecv"), [r] -> let r = int_of_string r in
              (match Hashtbl.find_opt rinfo r with
               | Some (m, t) when (try Hashtbl.find ralive r with Not_found -> false) ->
